@@ -85,6 +85,8 @@ type env struct {
 	orderAmt                          map[string]uint64
 	certHeight                        uint64
 	approvedHash                      string
+	reordered                         []*cand // multisig transactions by the rightful owners in unusual but valid form
+	off                               int
 	byHash                            map[string]*cand
 	last                              *snap
 	tuples                            map[string]int
@@ -464,7 +466,7 @@ func (e *env) forge(mt, k string) []*cand {
 		c.Signature.PublicKey = e.stranger[k].pub()
 		out = append(out, e.mk(mt, k, rel, "public-key-replaced", c, nil))
 		d := base()
-		d.Signature.Signature[len(d.Signature.Signature)/2] ^= 0x04
+		d.Signature.Signature[e.rng.Intn(len(d.Signature.Signature))] ^= byte(1 << uint(e.rng.Intn(8)))
 		out = append(out, e.mk(mt, k, rel, "signature-bit-flipped", d, nil))
 	}
 	if k == kMulti && signer.multi != nil {
@@ -476,20 +478,42 @@ func (e *env) forge(mt, k string) []*cand {
 			tx.Signature = &lib.Signature{PublicKey: pk, Signature: sig}
 			out = append(out, e.mk(mt, k, rel, tamper, tx, who))
 		}
-		mkm("multisig-below-threshold", func(sb []byte) ([]byte, []byte) { return m.sign(sb, nil, []int{e.rng.Intn(3)}, nil) }, nil)
-		mkm("multisig-bitmap-claims-absent-signer", func(sb []byte) ([]byte, []byte) { return m.sign(sb, nil, []int{0}, []int{0, 1}) }, nil)
-		mkm("multisig-bitmap-claims-all", func(sb []byte) ([]byte, []byte) { return m.sign(sb, nil, []int{1}, []int{0, 1, 2}) }, nil)
+		n, thr := len(m.keys), int(m.threshold)
+		firstN := func(k int) []int {
+			o := e.rng.Perm(n)[:k]
+			sort.Ints(o)
+			return o
+		}
+		all := firstN(n)
+		mkm("multisig-below-threshold", func(sb []byte) ([]byte, []byte) { return m.sign(sb, nil, firstN(thr-1), nil) }, nil)
+		mkm("multisig-bitmap-claims-absent-signer", func(sb []byte) ([]byte, []byte) {
+			c := firstN(thr)
+			return m.sign(sb, nil, c[:thr-1], c)
+		}, nil)
+		mkm("multisig-bitmap-claims-all", func(sb []byte) ([]byte, []byte) { return m.sign(sb, nil, firstN(1), all) }, nil)
 		// a different policy over the same keys is a different account: validly signed, by somebody else
-		low := &multiAcct{keys: m.keys, threshold: 1}
-		mkm("multisig-threshold-redeclared", func(sb []byte) ([]byte, []byte) { return low.sign(sb, nil, []int{0}, nil) }, low.address())
-		sub := &multiAcct{keys: m.keys[:2], threshold: 2}
+		low := &multiAcct{keys: m.keys, threshold: uint32(thr - 1)}
+		mkm("multisig-threshold-redeclared", func(sb []byte) ([]byte, []byte) { return low.sign(sb, nil, nil, nil) }, low.address())
+		sub := &multiAcct{keys: m.keys[:n-1], threshold: uint32(min(thr, n-1))}
 		mkm("multisig-subset-of-keys", func(sb []byte) ([]byte, []byte) { return sub.sign(sb, nil, nil, nil) }, sub.address())
-		sup := &multiAcct{keys: append(append([]crypto.PrivateKeyI{}, m.keys...), e.stranger[kBLS].key), threshold: 2}
-		mkm("multisig-superset-with-attacker-key", func(sb []byte) ([]byte, []byte) { return sup.sign(sb, nil, []int{0, 3}, nil) }, sup.address())
+		sup := &multiAcct{keys: append(append([]crypto.PrivateKeyI{}, m.keys...), e.stranger[kBLS].key), threshold: m.threshold}
+		mkm("multisig-superset-with-attacker-key", func(sb []byte) ([]byte, []byte) {
+			sg := append(firstN(thr-1), n)
+			return sup.sign(sb, nil, sg, nil)
+		}, sup.address())
+		// the same account with its keys listed in another order and any sufficient subset signing: still the owner
+		switch mt {
+		case fsm.MessageSendName, fsm.MessageSubsidyName, fsm.MessageCreateOrderName, fsm.MessageDexLimitOrderName, fsm.MessageDexLiquidityDepositName:
+			tx := e.newTx(e.content(mt, at, nil), "")
+			sb, _ := tx.GetSignBytes()
+			pk, sig := m.sign(sb, e.rng.Perm(n), firstN(thr+e.rng.Intn(n-thr+1)), nil)
+			tx.Signature = &lib.Signature{PublicKey: pk, Signature: sig}
+			e.reordered = append(e.reordered, e.mk(mt, k, rel, "multisig-keys-reordered-any-quorum", tx, signer.addr()))
+		}
 		zero := &multiAcct{keys: m.keys, threshold: 0}
 		mkm("multisig-threshold-zero", func(sb []byte) ([]byte, []byte) {
 			// threshold 0 cannot be built through the account constructor: serialize by hand
-			pk, sig := m.sign(sb, nil, []int{2}, nil)
+			pk, sig := m.sign(sb, nil, firstN(1), nil)
 			mp := new(crypto.MultiPublicKey)
 			_ = lib.Unmarshal(pk, mp)
 			mp.Threshold = 0
@@ -1048,6 +1072,11 @@ func (e *env) round(r int, forged []*cand) {
 		}
 		step := 3*r + j
 		honest := e.story(step)
+		for _, c := range e.reordered {
+			c.must = true
+			honest = append(honest, c)
+		}
+		e.reordered = nil
 		var lock, cls [][]byte
 		switch step {
 		case 1:
@@ -1141,7 +1170,9 @@ func (e *env) setup(idx int) {
 	val := func(op *party, out []byte, coms []uint64, stake uint64) {
 		spec.Validators = append(spec.Validators, node.GenesisVal{Key: op.key, Output: crypto.NewAddressFromBytes(out), Stake: stake, Committees: coms, Compound: true})
 	}
-	tag := e.name
+	tag := fmt.Sprintf("%s/seed%d", e.name, core.Seed())
+	multiShape = [][2]int{{3, 2}, {4, 3}, {2, 2}, {5, 3}}[e.rng.Intn(4)]
+	e.off = e.rng.Intn(2)
 	anchor := &party{name: "anchor", kind: kBLS, key: node.BLSKey(0)}
 	fund(anchor)
 	val(anchor, anchor.addr(), []uint64{1}, 5_000_000_000)
@@ -1309,14 +1340,14 @@ func runCase(t *testing.T, run *core.Run, name string, idx int, rng *rand.Rand) 
 	for r := 0; r < rounds && !e.stop; r++ {
 		var forged []*cand
 		for i, mt := range accountMsgs {
-			if core.Thorough() || (i+r+idx)%2 == 0 {
+			if core.Thorough() || (i+r+e.off)%2 == 0 {
 				for _, k := range nativeKinds {
 					forged = append(forged, e.forge(mt, k)...)
 				}
 			}
 		}
 		for i, mt := range rlpMsgs {
-			if core.Thorough() || (i+r+idx)%2 == 0 {
+			if core.Thorough() || (i+r+e.off)%2 == 0 {
 				forged = append(forged, e.rlpForge(mt)...)
 			}
 		}
